@@ -137,7 +137,27 @@ def function_value(F, fn_raw, crate, op):
     if rv["k"] == "ref" and not rv["place"]["p"]:
         # `op(&a, &b)` on an `impl Fn` parameter is `Fn::call(&op, (..))`
         return function_value(F, fn_raw, crate, {"copy": rv["place"]})
+    if rv["k"] == "cast" and str(rv.get("ck", "")).startswith("PointerCoercion(ReifyFnPointer"):
+        # `f64::sin` handed over as a `fn(f64) -> f64`
+        return function_value(F, fn_raw, crate, rv["a"])
     return None
+
+
+def resolve_fn_pointers(F, B, crate):
+    """`func(x)` on a `fn(..) -> ..` parameter of a helper that has been put into its caller: the pointer is a known function
+    item now; the call is made a direct call of it (the analyses see `f64::sin`, as they did before the helper existed)."""
+    n = 0
+    for b in B.raw["blocks"]:
+        t = b["term"]
+        if t and t["k"] == "call" and "callee" not in t and t.get("indirect") is not None and not b["cleanup"]:
+            fv = function_value(F, B.raw, crate, t["indirect"])
+            if fv is not None and fv[0] == "fn":
+                t2 = dict(t)
+                t2["callee"] = fv[1]
+                t2["was_indirect"] = True
+                b["term"] = t2
+                n += 1
+    return n
 
 
 def recursive(F, g):
@@ -386,6 +406,7 @@ def normalise(F, fn, keep=(), depth=3, _stack=()):
     if not changed_any:
         return fn
     if not _stack:
+        resolve_fn_pointers(F, B, fn.crate)
         thread_try(B)
         thread_bool(B)
     out = facts.Fn(B.raw, fn.crate)
